@@ -2,7 +2,6 @@ package model
 
 import (
 	"encoding/json"
-	"fmt"
 	"reflect"
 	"strconv"
 	"strings"
@@ -34,12 +33,24 @@ func metaJSON(status int, header bool) string {
 	return `,"meta":{` + strings.Join(parts, ",") + `}`
 }
 
+// Tricky are strings whose Go quoting differs from their JSON quoting, or
+// that are not valid UTF-8; handlers echo them in messages and results.
+var Tricky = []string{"", "\a", "\x1b[0m", "\x00", "é\u2028", "\xff\xfe", "\U000e0001", "quote\"back\\slash", "\v\f", "\x7f"}
+
+// TrickyFor returns the tricky string used by request id.
+func TrickyFor(id int) string { return Tricky[id%len(Tricky)] }
+
+func jsonString(s string) string {
+	b, _ := json.Marshal(s)
+	return string(b)
+}
+
 func errJSON(code, msg, data, meta string) string {
 	d := ""
 	if data != "" {
 		d = `,"data":` + data
 	}
-	return fmt.Sprintf(`{"error":{"code":%q,"message":%q%s}%s}`, code, msg, d, meta)
+	return `{"error":{"code":` + jsonString(code) + `,"message":` + jsonString(msg) + d + `}` + meta + `}`
 }
 
 // PredictResponse walks a handler behaviour script. handler is the handler
@@ -148,7 +159,7 @@ func PredictResponse(handler string, script []string, id int, isHTTP bool, rname
 			m := meta()
 			switch arg {
 			case "ok":
-				ex.Payload = `{"result":{"id":` + sid + `,"s":"q\"uo\\te\n<é>"}` + m + `}`
+				ex.Payload = `{"result":{"id":` + sid + `,"s":"q\"uo\\te\n<é>","t":` + jsonString(TrickyFor(id)) + `}` + m + `}`
 			case "oknil":
 				ex.Payload = `{"result":null` + m + `}`
 			case "model":
@@ -164,7 +175,7 @@ func PredictResponse(handler string, script []string, id int, isHTTP bool, rname
 				ex.Payload = errJSON(ex.Code, "Not found", "", m)
 			case "err":
 				ex.Code = "test.err"
-				ex.Payload = errJSON(ex.Code, "Err "+sid, `{"x":1}`, m)
+				ex.Payload = errJSON(ex.Code, "Err "+sid+TrickyFor(id), `{"x":1}`, m)
 			case "plainerr":
 				ex.Code = "system.internalError"
 				ex.Payload = errJSON(ex.Code, "Internal error: plain "+sid, "", m)
@@ -184,13 +195,13 @@ func PredictResponse(handler string, script []string, id int, isHTTP bool, rname
 				ex.Payload = errJSON(ex.Code, "Invalid parameters", "", m)
 			case "invparamsmsg":
 				ex.Code = "system.invalidParams"
-				ex.Payload = errJSON(ex.Code, "bad params "+sid, "", m)
+				ex.Payload = errJSON(ex.Code, "bad params "+sid+TrickyFor(id), "", m)
 			case "invquery":
 				ex.Code = "system.invalidQuery"
 				ex.Payload = errJSON(ex.Code, "Invalid query", "", m)
 			case "invquerymsg":
 				ex.Code = "system.invalidQuery"
-				ex.Payload = errJSON(ex.Code, "bad query "+sid, "", m)
+				ex.Payload = errJSON(ex.Code, "bad query "+sid+TrickyFor(id), "", m)
 			case "methodnotfound":
 				ex.Code = "system.methodNotFound"
 				ex.Payload = errJSON(ex.Code, "Method not found", "", m)
